@@ -167,7 +167,10 @@ type InSub struct { // X IN (SELECT Col FROM Tab)
 	X        Expr
 	Tab, Col string
 }
-type ScalarSub struct{ Tab, Col string } // (SELECT Col FROM Tab)
+type ScalarSub struct { // (SELECT Col FROM Tab [WHERE WCol = 'WVal'])
+	Tab, Col   string
+	WCol, WVal string
+}
 
 func (e Col) SQL() string {
 	if e.Tab != "" {
@@ -199,8 +202,13 @@ func (e In) SQL() string {
 	}
 	return e.X.SQL() + " IN (" + strings.Join(p, ", ") + ")"
 }
-func (e InSub) SQL() string     { return e.X.SQL() + " IN (SELECT " + e.Col + " FROM " + e.Tab + ")" }
-func (e ScalarSub) SQL() string { return "(SELECT " + e.Col + " FROM " + e.Tab + ")" }
+func (e InSub) SQL() string { return e.X.SQL() + " IN (SELECT " + e.Col + " FROM " + e.Tab + ")" }
+func (e ScalarSub) SQL() string {
+	if e.WCol != "" {
+		return "(SELECT " + e.Col + " FROM " + e.Tab + " WHERE " + e.WCol + " = '" + e.WVal + "')"
+	}
+	return "(SELECT " + e.Col + " FROM " + e.Tab + ")"
+}
 
 // constructors used by the alphabets
 func C(name string) Expr       { return Col{Name: name} }
@@ -383,13 +391,30 @@ func (sc *scope) eval(e Expr) (rv.V, error) {
 			}
 			return rv.N(), ErrUnknownField
 		}
-		if len(t.Rows) > 1 {
+		rows := t.Rows
+		if x.WCol != "" {
+			wi := t.ColIndex(x.WCol)
+			if wi < 0 {
+				if len(t.Rows) == 0 {
+					sc.lazy = true
+					return rv.N(), nil
+				}
+				return rv.N(), ErrUnknownField
+			}
+			rows = nil
+			for _, r := range t.Rows {
+				if rv.Equivalent(r[wi], rv.S(x.WVal)) {
+					rows = append(rows, r)
+				}
+			}
+		}
+		if len(rows) > 1 {
 			return rv.N(), ErrSubqueryMany
 		}
-		if len(t.Rows) == 0 {
+		if len(rows) == 0 {
 			return rv.N(), nil
 		}
-		return t.Rows[0][ci], nil
+		return rows[0][ci], nil
 	}
 	panic(fmt.Sprintf("unknown expression %T", e))
 }
